@@ -33,7 +33,7 @@ def B2_for(*mods):
 prop("C01",
      lambda tier: [tls.rule_A5, B1_for("decryptor", "session"), tables.rule_T4, tables.rule_T3_classes, tables.rule_T3_iv, tls.rule_types, tls.rule_A4, tls.rule_PAD,
                    tls.rule_T10, tls.rule_D1, output.rule_A8, tcp.rule_tls_causality, output.rule_T7_split, output.rule_A7, B2_for("output_builder", "session"),
-                   tcp.rule_framing, tcp.rule_A9],
+                   tcp.rule_framing, tcp.rule_A9, tcp.rule_full_scans],
      "Decides the necessary structure of per-record state and dispatch: sequence number read/increment pairing, CBC residue chaining from ciphertext, RC4 contexts "
      "created once, key switch at Finished assigning key+IV+seq of one direction (A5); direction arms are mirror images (B1); decrypt() dispatch equals the record "
      "protection of every valid (version, bulk) pair, by finite-domain guard evaluation (T4); parser/decryptor/IV-length tables agree (T3); record / handshake type "
@@ -45,7 +45,7 @@ prop("C01",
 prop("C02",
      lambda tier: [quic.rule_D8, quic.rule_T5_quic, quic.rule_T9_aad, quic.rule_T9_hp, quic.rule_epoch, quic.rule_D7b, quic.rule_frame_attrs,
                    B1_for("quic.quic_session", "quic.quic_dissector", "quic.quic_decryptor", "quic.quic_tls_parser", "quic.quic_output_builder"),
-                   pkn.rule_pn_spaces, progress.rule_A2, quic.rule_itermut, frames.rule_T8, state.rule_attr_kinds],
+                   pkn.rule_pn_spaces, progress.rule_A2, quic.rule_itermut, frames.rule_T8, state.rule_attr_kinds, tcp.rule_full_scans],
      "Decides: output grouping merges frames only within one input datagram and emits closed groups with their own time/direction (D8); key-name agreement producer → "
      "dissector/session with role and epoch, list positions of QuicDecryptor keys, decryptor per packet type (T5q); AAD = header in wire order per header form, nonce "
      "construction (T9a); header-protection constants (T9h); key-phase epoch rule (EPO); connection-ID matching only on non-empty IDs, CID learning (D7b); frame "
@@ -83,7 +83,7 @@ prop("C05",
      ["dpkt delivers tcp.seq / tcp.data as parsed"], controls=["c05-dedupe-wrong-list"])
 
 prop("C06",
-     lambda tier: [output.rule_D3, output.rule_A7, output.rule_T7_split, B2_for("output_builder"), output.rule_A8, escape.rule_A1],
+     lambda tier: [output.rule_D3, output.rule_A7, output.rule_T7_split, B2_for("output_builder"), output.rule_A8, escape.rule_A1, tcp.rule_full_scans],
      "Decides: everything that reaches the writer is an Ether/IP(v4|v6 per session)/TCP|UDP[/Raw] composition without length/checksum overrides, empty sessions "
      "contribute nothing, writer loop shape (D3); handshake before data, SYN/SYN-ACK/ACK numbers, per-part seq/ack bookkeeping order (A7); record re-split telescopes "
      "from 0 to the end with ts[i] per part (T7s); data builders mirror (B2); channels append-only (A8); finalisation loops contained (A1). Does not decide that "
@@ -92,7 +92,7 @@ prop("C06",
 
 prop("C07",
      lambda tier: [output.rule_D2, tcp.rule_framing, mirror.rule_B3_bind, B2_for("output_builder", "session"), B1_for("quic.quic_output_builder", "output_builder"),
-                   quic.rule_D8, output.rule_D3, mirror.rule_B3_match, output.rule_A7],
+                   quic.rule_D8, output.rule_D3, mirror.rule_B3_match, output.rule_A7, tcp.rule_full_scans],
      "Decides: timestamps flow without arithmetic from the reader's (ts, buf) pair through Packet.timestamp / record.metadata resp. QuicPacket.ts to the emitted "
      "(frame, ts) pairs; handshake time = first record's first packet (D2); a record is attributed to exactly the packets overlapping its byte range (FR overlap); "
      "role binding from the first packet (B3b); address/port/MAC orientation per arm (B1/B2, A7 sender check); QUIC group time and direction travel together (D8); IP "
@@ -101,7 +101,7 @@ prop("C07",
 
 prop("C08",
      lambda tier: [tcp.rule_tls_causality, output.rule_A8, tcp.rule_framing, escape.rule_A1_records, quic.rule_D8, output.rule_A7, output.rule_T7_split,
-                   B2_for("output_builder", "session"), escape.rule_A1],
+                   B2_for("output_builder", "session"), escape.rule_A1, tcp.rule_full_scans],
      "Decided as the classical argument for online algorithms — every stage is causal, append-only and a left fold, hence the export of a prefix is a prefix of the "
      "export — each premise being a structural obligation: single in-order pass without look-ahead (CAUS), append-only channels consumed in order (A8), records released "
      "only when whole and buffers cleared (FR + loop-replay lemma), a fault in record i cannot discard output of records < i (A1r), QUIC groups closed exactly at "
@@ -158,7 +158,7 @@ prop("C14",
      controls=["c14-sha-before-sha256"])
 
 prop("C15",
-     lambda tier: [kdf.rule_T6, kdf.rule_T7_keyblock, kdf.rule_T5_tls, quic.rule_T5_quic, kdf.rule_B4, tables.rule_T3_iv, quic.rule_T9_hp],
+     lambda tier: [kdf.rule_T6, kdf.rule_T7_keyblock, kdf.rule_T5_tls, quic.rule_T5_quic, kdf.rule_B4, tables.rule_T3_iv, quic.rule_T9_hp, tcp.rule_full_scans],
      "Decides: every HKDF-Expand call site (TLS 1.3: 8, QUIC: 18 + Initial 6 + key update 6) derives the key/iv/hp of the role and epoch of the key-log label it is "
      "guarded by, with the RFC label bytes, declared lengths and output lengths; Initial keys independent of the negotiated suite; PRF labels, seed orders per purpose "
      "and PRF hash selection (T6); key block partitioned into consecutive gap-free slices MAC_c, MAC_s, key_c, key_s, IV_c, IV_s, by polynomial normal forms (T7k); "
